@@ -13,12 +13,15 @@ PROTECT = [
     "self.*", "self.parser.*", "list(new_crossrefs)", "list(self.delayed_crossrefs)",
     "crossref.*", "attr.*", "metamodel.*", "dict(metamodel.scope_providers)",
     "list(self.pos_crossref_list)",
+    "dict(self._resolved_list_positions)",
+    "list(self._resolved_list_positions[(id(obj), attr.name)])",
+    "list(getattr(obj, attr.name))",
 ]
 PROVIDER = Ext(
     "provider",
     note="user scope provider: returns None, a Postponed or an object; may raise anything; "
-         "does not write the resolver, parser._crossrefs, the cross-ref, the meta attribute, "
-         "the metamodel's provider table or the tool-support list (assumed)",
+         "does not write the resolver and its bookkeeping, parser._crossrefs, the cross-ref, the meta attribute, "
+         "the metamodel's provider table, the tool-support list or the reference list being filled (assumed)",
     protect=PROTECT,
 )
 
@@ -35,11 +38,72 @@ REGISTERED = (
 ANY_REGISTERED = f"({K1} in {SP} or {K2} in {SP} or {K3} in {SP} or {K4} in {SP})"
 OWN = "old(root_of(obj) == self.model)"
 
+STORE_REGION = "if:attr.mult in [MULT_ONEORMORE, MULT_ZEROORMORE]"
+SKEY = "(id(obj), attr.name)"
+SPOS = f"self._resolved_list_positions[{SKEY}]"
+SMANY = "(attr.mult == '1..*' or attr.mult == '0..*')"
+R3P = (
+    f"implies({SKEY} in self._resolved_list_positions, is_list({SPOS})"
+    f" and len(as_list({SPOS})) <= len(as_list(attr_value))"
+    f" and {SPOS} != attr_value"
+    f" and forall(lambda j: implies(0 <= j and j < len(as_list({SPOS})), is_int(as_list({SPOS})[j])))"
+    f" and forall(lambda i, j: implies(0 <= i and i < j and j < len(as_list({SPOS})),"
+    f" as_list({SPOS})[i] <= as_list({SPOS})[j])))"
+)
+NP0 = f"(old(len(as_list({SPOS}))) if old({SKEY} in self._resolved_list_positions) else 0)"
+P1 = f"as_list({SPOS})"
+L1 = "as_list(attr_value)"
+
+# C08 - the statement that stores a resolved target.  For a list attribute the resolver keeps, per
+# (object, attribute), the sorted input positions of the references already resolved into the list;
+# the last len(positions) elements of the list are their targets, in that order.  A target is inserted
+# at the place its reference's position has among them - whatever order the provider let them resolve in.
+Unit(
+    "model.resolve_one_step.store",
+    target="textx/model.py::ReferenceResolver.resolve_one_step",
+    region=STORE_REGION,
+    props=["C08", "C07"],
+    params={"self": "obj:ReferenceResolver", "obj": "obj", "attr": "obj:MetaAttr", "crossref": "obj:ObjCrossRef",
+            "attr_value": "any", "resolved": "any"},
+    requires=[
+        "distinct(self, obj, attr, crossref, self._resolved_list_positions)",
+        "is_int(crossref.position)",
+        f"implies({SMANY}, is_list(attr_value) and attr_value != self._resolved_list_positions)",
+        ("R3-recorded-positions-sorted-ints-not-longer-than-the-list", f"implies({SMANY}, {R3P})"),
+    ],
+    calls={"attr_value.insert": "list.insert", "positions.insert": "list.insert"},
+    # frame (proved for this region, relied upon where it is used by contract): only the attribute / the
+    # list being filled and the resolver's position bookkeeping change
+    modifies=["obj.*", "list(attr_value)", "dict(self._resolved_list_positions)",
+              "list(self._resolved_list_positions[(id(obj), attr.name)])"],
+    ensures=[
+        ("C07-single-valued-attribute-gets-the-target",
+         f"implies(not old({SMANY}), getattr(obj, old(attr.name)) == resolved)", "C07|C08"),
+        ("C08-one-element-and-one-position-more",
+         f"implies(old({SMANY}), len({L1}) == old(len({L1})) + 1 and {SKEY} in self._resolved_list_positions"
+         f" and len({P1}) == {NP0} + 1)", "C08"),
+        # (the witness of "there is a place k" is the index the code computed: final_idx)
+        ("C08-target-stands-where-its-reference-stands-among-the-resolved-ones",
+         f"implies(old({SMANY}), 0 <= final_idx and final_idx < len({P1}) and {P1}[final_idx] == crossref.position"
+         f" and {L1}[len({L1}) - len({P1}) + final_idx] == resolved"
+         f" and forall(lambda j: implies(0 <= j and j < final_idx, {P1}[j] <= crossref.position))"
+         f" and forall(lambda j: implies(final_idx < j and j < len({P1}), {P1}[j] > crossref.position)))", "C08"),
+        ("C08-recorded-positions-stay-sorted-ints-not-longer-than-the-list",
+         f"implies(old({SMANY}), len({P1}) <= len({L1})"
+         f" and forall(lambda j: implies(0 <= j and j < len({P1}), is_int({P1}[j])))"
+         f" and forall(lambda i, j: implies(0 <= i and i < j and j < len({P1}), {P1}[i] <= {P1}[j])))", "C08"),
+        ("C08-elements-before-the-insertion-point-keep-their-place",
+         f"implies(old({SMANY}), forall(lambda j: implies(0 <= j and j < old(len({L1})) - {NP0},"
+         f" {L1}[j] == old({L1}[j]))))", "C08"),
+    ],
+    canary="len(as_list(attr_value)) == 0",
+)
+
 Unit(
     "model.resolve_one_step.body",
     target="textx/model.py::ReferenceResolver.resolve_one_step",
     region="body:for:current_crossrefs",
-    props=["C32", "C07", "C28", "C34", "C09"],
+    props=["C32", "C07", "C28", "C34", "C09", "C08"],
     params={
         "self": "obj:ReferenceResolver",
         "metamodel": "obj:TextXMetaModel",
@@ -58,17 +122,36 @@ Unit(
         "is_int(crossref.position_end)",
         # model objects, meta attributes, cross-refs and the resolver machinery are different objects
         "distinct(self, self.parser, metamodel, obj, attr, crossref, default_scope, new_crossrefs,"
-        " self.delayed_crossrefs, self.pos_crossref_list, metamodel.scope_providers)",
+        " self.delayed_crossrefs, self.pos_crossref_list, metamodel.scope_providers, self._resolved_list_positions)",
         "getattr(obj, attr.name) != self.pos_crossref_list and getattr(obj, attr.name) != new_crossrefs"
         " and getattr(obj, attr.name) != self.delayed_crossrefs",
+        # R3': the recorded positions of a list attribute are a sorted list of ints, not longer than the list,
+        # and a different object from every other list the step touches (established by this step itself)
+        "implies(((id(obj), attr.name) in self._resolved_list_positions), is_list(self._resolved_list_positions[(id(obj), attr.name)])"
+        " and len(as_list(self._resolved_list_positions[(id(obj), attr.name)])) <= len(as_list(getattr(obj, attr.name)))"
+        " and self._resolved_list_positions[(id(obj), attr.name)] != getattr(obj, attr.name)"
+        " and forall(lambda j: implies(0 <= j and j < len(as_list(self._resolved_list_positions[(id(obj), attr.name)])),"
+        " is_int(as_list(self._resolved_list_positions[(id(obj), attr.name)])[j])))"
+        " and forall(lambda i, j: implies(0 <= i and i < j and j < len(as_list(self._resolved_list_positions[(id(obj), attr.name)])),"
+        " as_list(self._resolved_list_positions[(id(obj), attr.name)])[i] <= as_list(self._resolved_list_positions[(id(obj), attr.name)])[j])))",
+        "is_int(crossref.position)",
+        # (stated for the slot of the bookkeeping dict whether or not the key is present: an absent key denotes an
+        # unobservable value, which must not be confused with one of the lists of this step)
+        "self._resolved_list_positions[(id(obj), attr.name)] != new_crossrefs"
+        " and self._resolved_list_positions[(id(obj), attr.name)] != self.delayed_crossrefs"
+        " and self._resolved_list_positions[(id(obj), attr.name)] != self.pos_crossref_list",
         # R3: a many-valued reference attribute holds a list (established by _init_obj_attrs)
         "implies(attr.mult == '1..*' or attr.mult == '0..*', is_list(getattr(obj, attr.name)))",
     ],
+    # the statement that stores the target (positional insert into list attributes) is a unit of its own
+    regions={STORE_REGION: "model.resolve_one_step.store"},
     calls={
         "crossref.scope_provider": PROVIDER,
         "metamodel.scope_providers[attr_ref]": PROVIDER,
         "default_scope": "providers.PlainName.__call__",
         "attr_value.append": "list.append",
+        "attr_value.insert": "list.insert",
+        "positions.insert": "list.insert",
         "self.parser.dprint": Ext("dprint", pure=True, raises=None, returns="none"),
         "self.parser.pos_to_linecol": Ext(
             "pos_to_linecol", returns="tuple", raises=None, pure=True,
@@ -99,10 +182,11 @@ Unit(
         ("C07-own-reference-never-left-unresolved", f"implies({OWN}, FINAL is not None)", "C07"),
         ("C07-single-valued-attribute-gets-target",
          f"implies({OWN} and not POSTPONED and not MANY, getattr(obj, attr.name) == FINAL)", "C07"),
-        ("C07-list-attribute-gets-target-appended",
+        ("C07-list-attribute-gets-the-target-inserted-once",
          f"implies({OWN} and not POSTPONED and MANY,"
-         " len(as_list(old(getattr(obj, attr.name)))) == after(PEV, len(as_list(old(getattr(obj, attr.name))))) + 1"
-         f" and as_list(old(getattr(obj, attr.name)))[-1] == FINAL)", "C07"),
+         " len(LIST) == after(PEV, len(LIST)) + 1"
+         " and 0 <= len(LIST) - len(POSITIONS) + final_idx and len(LIST) - len(POSITIONS) + final_idx < len(LIST)"
+         " and LIST[len(LIST) - len(POSITIONS) + final_idx] == FINAL)", "C07|C08"),
         ("C09-count-and-queues",
          f"final_resolved_crossref_count == resolved_crossref_count + (1 if ({OWN} and not POSTPONED) else 0)"
          f" and len(new_crossrefs) == old(len(new_crossrefs)) + (0 if ({OWN} and not POSTPONED) else 1)"
@@ -193,7 +277,12 @@ _BUILTIN_OK = (f"after({_PEV}, truthy(metamodel.builtins) and crossref.obj_name 
                " and conf(as_dict(metamodel.builtins)[crossref.obj_name], crossref.cls))")
 _FINAL = (f"({_PR} if {_PR} is not None else "
           f"(after({_PEV}, as_dict(metamodel.builtins)[crossref.obj_name]) if {_BUILTIN_OK} else None))")
+_KEY = "(id(obj), attr.name)"
 _MACROS = {
+    "NP_BEFORE": f"(after(PEV, len(as_list(self._resolved_list_positions[{_KEY}]))) if "
+                 f"after(PEV, {_KEY} in self._resolved_list_positions) else 0)",
+    "POSITIONS": f"as_list(self._resolved_list_positions[{_KEY}])",
+    "LIST": "as_list(old(getattr(obj, attr.name)))",
     "PR_POSTPONED": f"(is_ref({_PR}) and cls({_PR}) == Postponed)",
     "POSTPONED": f"(is_ref({_FINAL}) and cls({_FINAL}) == Postponed)",
     "FINAL": _FINAL,
@@ -234,6 +323,10 @@ def _replay_body(model, rec):
         from .c07 import _replay_plainname
 
         return _replay_plainname(model, rec)
+    if rec.get("property") == "C08":
+        from .c08 import _replay_c08
+
+        return _replay_c08(model, rec)
     from textx import metamodel_from_str
 
     keys = ["Ref.r", "*.r", "Ref.*", "*.*"]
